@@ -102,7 +102,7 @@ impl<'a> Speller<'a> {
     }
 
     fn underscores(&mut self, digits: &str) -> String {
-        // "_" between digits of the integer part
+        // "_" between two digits
         let mut o = String::new();
         let cs: Vec<char> = digits.chars().collect();
         for (i, c) in cs.iter().enumerate() {
@@ -174,13 +174,15 @@ impl<'a> Speller<'a> {
             .filter(|c| c.parse::<f64>().ok().map(|d| d.to_bits()) == Some(x.to_bits()))
             .collect();
         let pick = if ok.is_empty() { canon } else { self.rng.pick(&ok).clone() };
-        if self.rng.chance(1, 3) {
-            match pick.find(|c| c == '.' || c == 'e' || c == 'E') {
+        match self.rng.below(6) {
+            // `digits := digit (digit | "_")*` wherever the grammar says `digits`: in the integer part only ...
+            0 => match pick.find(|c| c == '.' || c == 'e' || c == 'E') {
                 Some(i) => format!("{}{}", self.underscores(&pick[..i]), &pick[i..]),
                 None => self.underscores(&pick),
-            }
-        } else {
-            pick
+            },
+            // ... or in every digit run: integer part, fraction and exponent
+            1 | 2 => self.underscores(&pick),
+            _ => pick,
         }
     }
 
